@@ -599,6 +599,50 @@ def r20h(ctx):
         raise AnalysisError(f"R20h: only {n_sites} outline-level write(s) from a parameter found in toc.py")
 
 
+def r20i(ctx):
+    """Replacing the body of a part keeps the body element in the tree.
+
+    `TOC.fill(document)` and the heading-listing tool read `document.body`, and Document caches that element (`__body`, reset only by
+    set_part and clone).  The setter `XmlPart.body = new_body` therefore has to change the *content* of the existing `office:text` /
+    `office:spreadsheet` element — empty it, move the new children in — so that every holder of the element, the cache included, sees the new
+    content.  A setter that swaps the element itself (replace_element, delete + append under the parent) leaves the cache pointing at a detached
+    body: the table of contents then lists the headings of a body that is no longer in the document.  Rule: in the XmlPart.body setter the
+    current body element is never detached — it is not an argument of replace_element / replace / delete / remove, and delete() is not called
+    on it — and the children of the new body are appended to it.
+    """
+    repo = ctx.repo
+    ctx.rule("R20i", "the XmlPart.body setter refills the existing body element instead of replacing it (Document caches that element)", floor=2)
+    f = repo.func("XmlPart.body", "setter")
+    # locals that hold the current body: defined from `.document_body`, `self.body` or get_body()
+    cur = set()
+    for a in walk_no_nested(f.node):
+        if isinstance(a, ast.Assign) and len(a.targets) == 1 and isinstance(a.targets[0], ast.Name):
+            if any((isinstance(x, ast.Attribute) and x.attr in ("document_body", "body")) or (isinstance(x, ast.Call) and call_name(x) in ("get_body", "get_document_body")) for x in ast.walk(a.value)):
+                cur.add(a.targets[0].id)
+    if not cur:
+        raise AnalysisError("R20i: the body setter no longer reads the current body element")
+    detach = []
+    for c in walk_no_nested(f.node):
+        if not isinstance(c, ast.Call):
+            continue
+        nm = call_name(c)
+        if nm in ("replace_element", "replace", "delete", "remove") and any(isinstance(a, ast.Name) and a.id in cur for a in c.args):
+            detach.append(c)
+        if nm == "delete" and isinstance(c.func, ast.Attribute) and isinstance(c.func.value, ast.Name) and c.func.value.id in cur and not c.args:
+            detach.append(c)
+    ctx.instance("R20i", f"{f.file}:{f.ident}", "the current body element stays attached", ok=not detach, nontrivial=True, line=f.node.lineno)
+    for c in detach[:1]:
+        ctx.report("R20i", f, c, norm(c, 50),
+                   f"{f.ident} detaches the current body element (`{norm(c, 50)}`): Document.body caches that element, so after the assignment `document.body` — which TOC.fill(document) "
+                   f"and the heading-listing tool read — is a body that is no longer in the document, and the table of contents lists its headings")
+    refill = [c for c in walk_no_nested(f.node) if isinstance(c, ast.Call) and call_name(c) in ("append", "extend", "insert") and isinstance(c.func, ast.Attribute)
+              and isinstance(c.func.value, ast.Name) and c.func.value.id in cur]
+    ctx.instance("R20i", f"{f.file}:{f.ident}", "the new children are moved into the current body element", ok=bool(refill), nontrivial=True, line=f.node.lineno)
+    if not refill:
+        ctx.report("R20i", f, f.node, "no refill of the current body",
+                   f"{f.ident} does not append the new content to the current body element: the element Document.body caches does not receive it")
+
+
 def run(ctx):
     r20a(ctx)
     r20b(ctx)
@@ -608,6 +652,7 @@ def run(ctx):
     r20f(ctx)
     r20g(ctx)
     r20h(ctx)
+    r20i(ctx)
     # fill() filters by self.outline_level: that property must read this TOC's own source element, not the first one of the document (rule shared with C12)
     from ..registry import build_registry
     from .c12 import r12k
@@ -619,6 +664,9 @@ from ..selftest import Seed, unparse_seed  # noqa: E402
 _TOC = "src/odfdo/toc.py"
 _HS = "src/odfdo/scripts/headers.py"
 SEEDS = [
+    Seed("the XmlPart.body setter swaps the body element", "fault", "src/odfdo/xmlpart.py",
+         "        tail = body.tail\n        body.clear()\n        for item in new_body.children:\n            body.append(item)\n        if tail:\n            body.tail = tail",
+         "        tail = body.tail\n        body.parent.replace_element(body, new_body)\n        new_body.tail = tail", "R20i"),
     Seed("create_toc_source reuses the argument's name as the template loop counter", "fault", _TOC,
          "        for level in range(1, 11):\n            template = TocEntryTemplate(outline_level=level)\n            if entry_style:\n                template.style = entry_style % level\n            toc_source.append(template)\n",
          "        for outline_level in range(1, 11):\n            template = TocEntryTemplate(outline_level=outline_level)\n            if entry_style:\n                template.style = entry_style % outline_level\n            toc_source.append(template)\n        toc_source.set_attribute(\"text:outline-level\", str(outline_level))\n", "R20h"),
